@@ -4,6 +4,7 @@ import Hpl.Model.DataType
 import Hpl.Model.Build
 import Hpl.Model.Query
 import Hpl.Model.Printer
+import Hpl.Spec.PrintChars
 import Hpl.Spec.Typing
 import Hpl.Spec.Scoping
 import Hpl.Model.Canon
@@ -261,17 +262,20 @@ def handle (req : Sexp) : Sexp :=
     -- tree `printable`; does the lexer make `Raw.toks` of the printed form (kind and text of every token; word tokens not
     -- glued to a preceding word character); does the parser read `Raw.toks` back to the tree
     let key := tokKey      -- the key of `renders_sim` / `roundtrip_of_scanned` (Props/C01c)
-    let check (r : Raw) (printed : Except LexErr (List Tok)) : Sexp :=
+    -- plus the decidable hypothesis of the text-level theorems (`print_parse_roundtrip_dec`, `pred_print_parse_roundtrip`, Props/C06g-h):
+    -- every literal token text and variable name of the tree is scanned completely as one token (`Raw.lexOkB`), and the model
+    -- printer's text is `Raw.chars` (a theorem, `print_chars`; evaluated here as a cross-check of the definitions)
+    let check (r : Raw) (e : Expr) (printed : Except LexErr (List Tok)) : Sexp :=
       let toksEq := match printed with | .ok ts => ts.map key == r.toks.map key | .error _ => false
       let back := match parseExpressionToks r.toks with | .ok r' => (match build r, build r' with | .ok e, .ok e' => e == e' | _, _ => false) | .error _ => false
-      okS [Sexp.ofBool r.printable, Sexp.ofBool toksEq, Sexp.ofBool back]
+      okS [Sexp.ofBool r.printable, Sexp.ofBool toksEq, Sexp.ofBool back, Sexp.ofBool r.lexOkB, Sexp.ofBool (String.ofList r.chars == e.print)]
     if entry == "expression" then
       match lexExpr text with
       | .error _ => errS "syntax"
       | .ok ts => match parseExpressionToks ts with
         | .error _ => errS "syntax"
         | .ok r => match build r with
-          | .ok e => check r (lexExpr e.print)
+          | .ok e => check r e (lexExpr e.print)
           | .error _ => errS "build"
     else if entry == "predicate" then
       match lex text with
@@ -279,7 +283,7 @@ def handle (req : Sexp) : Sexp :=
       | .ok ts => match parsePredicateToks ts with
         | .error _ => errS "syntax"
         | .ok r => match build r with
-          | .ok e => check r (lexExpr e.print)
+          | .ok e => check r e (lexExpr e.print)
           | .error _ => errS "build"
     else if entry == "property" then
       -- property level (Props/C06c parse_property_toks_roundtrip): `fmt` is the spelling of the time bound in this very text
